@@ -20,10 +20,12 @@ pub enum Rep {
     Silent,
     GoodbyeOwn,
     Unknown,
-    BusErr,
+    /// bus failure; the payload selects the error value (see `bus_error`)
+    BusErr(u8),
 }
 
-pub const N_REP: usize = 42;
+pub const N_BUS_ERR: usize = 6;
+pub const N_REP: usize = 41 + N_BUS_ERR;
 
 pub fn rep_of(i: usize) -> Rep {
     match i {
@@ -34,7 +36,7 @@ pub fn rep_of(i: usize) -> Rep {
         38 => Rep::Silent,
         39 => Rep::GoodbyeOwn,
         40 => Rep::Unknown,
-        _ => Rep::BusErr,
+        k => Rep::BusErr((k - 41) as u8),
     }
 }
 
@@ -45,7 +47,7 @@ pub fn rep_str(r: Rep) -> String {
         Rep::Silent => "none".into(),
         Rep::GoodbyeOwn => "goodbye".into(),
         Rep::Unknown => "unknown-frame".into(),
-        Rep::BusErr => "BUS-ERROR".into(),
+        Rep::BusErr(k) => format!("BUS-ERROR[{}]", ["custom error type", "io::Error Other", "io::Error TimedOut", "io::Error Interrupted", "FrameError::Io(TimedOut)", "FrameError::Io(UnexpectedEof)"][k as usize]),
     }
 }
 
@@ -61,7 +63,7 @@ impl Error for Injected {}
 pub const STARVED: &str = "fdv-script-exhausted";
 pub const BUS_MARK: &str = "fdv-injected-bus-error";
 
-pub fn rep_to_reply(r: Rep, own_addr: u16, foreign: u16) -> Result<Option<Message<'static>>, ()> {
+pub fn rep_to_reply(r: Rep, own_addr: u16, foreign: u16) -> Result<Option<Message<'static>>, u8> {
     let a = |o: bool| Address(if o { own_addr } else { foreign });
     match r {
         Rep::Report { own, state } => Ok(Some(Message::ReportState(a(own), STATES[state].0))),
@@ -69,7 +71,21 @@ pub fn rep_to_reply(r: Rep, own_addr: u16, foreign: u16) -> Result<Option<Messag
         Rep::Silent => Ok(None),
         Rep::GoodbyeOwn => Ok(Some(Message::Goodbye(a(true)))),
         Rep::Unknown => Ok(Some(Message::Unknown(Frame::new(a(true), MsgType(0x2A), Data::try_new(vec![1u8, 2, 3]).unwrap())))),
-        Rep::BusErr => Err(()),
+        Rep::BusErr(k) => Err(k),
+    }
+}
+
+/// The injected bus failures: a custom error type, plain io::Errors of several kinds, and the shape a serial bus
+/// produces (FrameError::Io wrapping the port's io::Error). The marker text identifies the injection point.
+pub fn bus_error(kind: u8, marker: String) -> Box<dyn Error + Send + Sync> {
+    use std::io;
+    match kind {
+        0 => Box::new(Injected(marker)),
+        1 => Box::new(io::Error::new(io::ErrorKind::Other, marker)),
+        2 => Box::new(io::Error::new(io::ErrorKind::TimedOut, marker)),
+        3 => Box::new(io::Error::new(io::ErrorKind::Interrupted, marker)),
+        4 => Box::new(flipdot_core::FrameError::Io { source: io::Error::new(io::ErrorKind::TimedOut, marker) }),
+        _ => Box::new(flipdot_core::FrameError::Io { source: io::Error::new(io::ErrorKind::UnexpectedEof, marker) }),
     }
 }
 
@@ -101,7 +117,7 @@ impl SignBus for ScriptBus {
             }
             Some(r) => match rep_to_reply(*r, self.own_addr, self.foreign) {
                 Ok(x) => Ok(x.map(|m| own(&m))),
-                Err(()) => Err(Box::new(Injected(format!("{} #{}", BUS_MARK, idx)))),
+                Err(kind) => Err(bus_error(kind, format!("{} #{}", BUS_MARK, idx))),
             },
         }
     }
@@ -148,14 +164,24 @@ fn classify_err(e: &SignError) -> Outcome {
     match e {
         SignError::UnexpectedResponse { .. } => Outcome::Protocol,
         SignError::Bus { .. } => {
-            let src = e.source().map(|s| s.to_string()).unwrap_or_default();
-            if src == STARVED {
-                Outcome::Starved
-            } else if let Some(rest) = src.strip_prefix(BUS_MARK) {
-                Outcome::Bus(rest.trim().trim_start_matches('#').parse().ok())
-            } else {
-                Outcome::Bus(None)
+            // walk the source chain: the marker may sit under a wrapping error (FrameError::Io)
+            let mut cur: Option<&(dyn Error + 'static)> = e.source();
+            let mut depth = 0;
+            while let Some(c) = cur {
+                let txt = c.to_string();
+                if txt == STARVED {
+                    return Outcome::Starved;
+                }
+                if let Some(pos) = txt.find(BUS_MARK) {
+                    return Outcome::Bus(txt[pos + BUS_MARK.len()..].trim().trim_start_matches('#').parse().ok());
+                }
+                cur = c.source();
+                depth += 1;
+                if depth > 8 {
+                    break;
+                }
             }
+            Outcome::Bus(None)
         }
         _ => Outcome::Bus(None),
     }
@@ -361,7 +387,7 @@ pub fn invariants(op: Op, own_addr: u16, foreign: u16, script: &[Rep], run: &Run
     let mut out = vec![];
     let own = Address(own_addr);
     let sent = &run.sent;
-    let reply_at = |i: usize| -> Option<Result<Option<Message<'static>>, ()>> { script.get(i).map(|r| rep_to_reply(*r, own_addr, foreign)) };
+    let reply_at = |i: usize| -> Option<Result<Option<Message<'static>>, u8>> { script.get(i).map(|r| rep_to_reply(*r, own_addr, foreign)) };
     let conv = || {
         sent.iter().enumerate().map(|(i, m)| format!("{} -> {}", msg_str(m), script.get(i).map(|r| rep_str(*r)).unwrap_or_else(|| "(script end)".into()))).collect::<Vec<_>>().join(" | ")
     };
@@ -383,7 +409,7 @@ pub fn invariants(op: Op, own_addr: u16, foreign: u16, script: &[Rep], run: &Run
         let Some(rep) = reply_at(i) else { break };
         let last = i + 1 == sent.len();
         match rep {
-            Err(()) => {
+            Err(_) => {
                 if !last {
                     out.push(("I2-fail-stop", format!("{}:sent-after-bus-error", opname), format!("message #{} was sent after the bus error at #{}: {}", i + 1, i, conv())));
                 }
@@ -479,6 +505,9 @@ pub struct RespBus {
     /// 0 = silence, 1 = acknowledgement of another operation, 2 = acknowledgement from another address, 3 = a state report
     pub nack: Option<(usize, u8)>,
     pub requests_seen: usize,
+    /// answer the j-th data chunk (0-based, counted over the whole conversation) with a state report
+    pub stray_reply_to_chunk: Option<usize>,
+    pub chunks_seen: usize,
 }
 
 impl SignBus for RespBus {
@@ -504,6 +533,15 @@ impl SignBus for RespBus {
                     }
                 }
                 reply
+            }
+            Message::SendData(..) => {
+                let j = self.chunks_seen;
+                self.chunks_seen += 1;
+                if self.stray_reply_to_chunk == Some(j) {
+                    Some(Message::ReportState(own, State::PixelsInProgress))
+                } else {
+                    None
+                }
             }
             Message::DataChunksSent(_) => {
                 self.count_seen = true;
